@@ -15,7 +15,7 @@ from harness import core, influence_engine as eng, probes
 from harness.props.c06 import DEG_CFG
 
 LEVEL = "model_checking"
-ROTS = ["perm", "fourier", "real", "haar"]
+ROTS = ["perm", "fourier", "real", "haar", "plane"]       # "plane": a rotation of levels 0 and d-1 only
 
 
 def check_bath(job):
@@ -23,7 +23,13 @@ def check_bath(job):
     o, rot_kind, seed = job
     o = np.array(o, dtype=float)
     d = len(o)
-    v = probes.haar_unitary(d, seed, str(list(o))) if rot_kind == "haar" else probes.structured_unitary(d, rot_kind)
+    if rot_kind == "plane":
+        # mixes only the first and the last level: the operator's only off-diagonal elements sit in the far corners
+        v = np.eye(d, dtype=complex)
+        cth, sth = np.cos(0.7), np.sin(0.7) * np.exp(0.4j)
+        v[0, 0], v[0, d - 1], v[d - 1, 0], v[d - 1, d - 1] = cth, -np.conj(sth), sth, cth
+    else:
+        v = probes.haar_unitary(d, seed, str(list(o))) if rot_kind == "haar" else probes.structured_unitary(d, rot_kind)
     op = v @ np.diag(o) @ v.conj().T
     op = (op + op.conj().T) / 2
     corr = probes.make_probe_sd(probes.probe_weights(seed, 4), 0.25)
@@ -170,7 +176,7 @@ def run(ctx):
     cases = eng.generate(ctx, consts, "behaviours to be presented in rotated bases")
     jobs = []
     for idx, case in enumerate(cases):
-        for rk in (ROTS if not quick else [ROTS[idx % 4], "haar"]):
+        for rk in (ROTS[:4] if not quick else [ROTS[idx % 4], "haar"]):
             jobs.append({"case": case, "variant": {"rot": rk, "unique": bool((idx + len(rk)) % 2)}, "seed": ctx.seed})
         if case["alg"] == "row" and len(case["sh"]) == 2 and case["sh"][0] == case["sh"][1]:
             jobs.append({"case": case, "variant": {"rot": "haar", "method": "mf"}, "seed": ctx.seed})
